@@ -698,6 +698,52 @@ func (c *C19Case) Run() string {
 				}
 				tensor.ReturnTensor(m.T)
 				note = "ReturnTensor(" + m.name + ")"
+			case "Observe":
+				// operations that only read their operand: whatever they return (not modelled here), the
+				// operand and every other live tensor are as they were - checked after the step like always
+				m := pick(st.I)
+				if m == nil {
+					note = "Observe(skipped)"
+					return
+				}
+				kinds := []string{"Norm", "Norm", "Argmax", "Argmin", "Max", "String", "Trace", "Eq", "Inner", "Norm"}
+				k := kinds[st.J%len(kinds)]
+				note = fmt.Sprintf("Observe:%s(%s)", k, m.name)
+				_ = try(func() {
+					switch k {
+					case "Norm":
+						ords := []tensor.NormOrder{tensor.Norm(2), tensor.Norm(1), tensor.InfNorm(), tensor.NegInfNorm(), tensor.FrobeniusNorm(), tensor.NuclearNorm(), tensor.Norm(-2), tensor.UnorderedNorm()}
+						ord := ords[st.K%len(ords)]
+						var axes []int
+						if len(m.Shape) >= 2 && len(st.Ints) >= 2 {
+							a0, a1 := st.Ints[0]%len(m.Shape), st.Ints[1]%len(m.Shape)
+							if a0 != a1 {
+								axes = []int{a0, a1}
+							}
+						} else if len(m.Shape) >= 1 && len(st.Ints) == 1 {
+							axes = []int{st.Ints[0] % len(m.Shape)}
+						}
+						o := own("axes", axes)
+						owneds = append(owneds, o)
+						_, _ = m.T.Norm(ord, o.s...)
+					case "Argmax":
+						if len(m.Shape) > 0 {
+							_, _ = m.T.Argmax(st.K % len(m.Shape))
+						}
+					case "Argmin":
+						_, _ = m.T.Argmin(tensor.AllAxes)
+					case "Max":
+						_, _ = m.T.Max()
+					case "String":
+						_ = fmt.Sprintf("%v %+v %#v", m.T, m.T, m.T.Shape())
+					case "Trace":
+						_, _ = m.T.Trace()
+					case "Eq":
+						_ = m.T.Eq(m.T.Clone())
+					case "Inner":
+						_, _ = m.T.Inner(m.T)
+					}
+				})
 			case "MultIter":
 				// two live tensors are iterated together (the same shape, or a vector in two forms): read-only
 				a := pick(st.I)
@@ -1033,7 +1079,7 @@ func (w *c19World) invariant(named []*mTensor, owneds []*owned, si int, note str
 
 // ---------------------------------------------------------------- generator
 
-var c19Ops = []string{"New", "New", "Slice", "Slice", "T", "T", "UT", "UT", "Transpose", "RollAxis", "Reshape", "Clone", "Materialize", "SafeT", "SafeT", "Arith", "Arith", "Arith", "Sum", "Sum", "At", "SetAt", "Repeat", "RepeatReuse", "TensorMul", "ReturnTensor", "ReturnTensor", "UsePool", "DontUsePool", "GC", "NewMasked", "MaskedViewReturn", "ReturnMasked", "MultIter", "DecodeInto", "MaskedViewRepoint"}
+var c19Ops = []string{"New", "New", "Slice", "Slice", "T", "T", "UT", "UT", "Transpose", "RollAxis", "Reshape", "Clone", "Materialize", "SafeT", "SafeT", "Arith", "Arith", "Arith", "Sum", "Sum", "At", "SetAt", "Repeat", "RepeatReuse", "TensorMul", "ReturnTensor", "ReturnTensor", "UsePool", "DontUsePool", "GC", "NewMasked", "MaskedViewReturn", "ReturnMasked", "MultIter", "DecodeInto", "MaskedViewRepoint", "Observe", "Observe"}
 
 func genC19(rt *rapid.T, minLen, maxLen int) *C19Case {
 	n := rapid.IntRange(minLen, maxLen).Draw(rt, "len")
